@@ -75,6 +75,13 @@ def oracle_fwd(case, impl):
             return "upstream %s chosen but the query was sent to %s" % (d["get"], d["calls"])
         if d["ret"] != str(1000 + int(d["get"])):
             return "result of upstream %s not handed through (ret=%s)" % (d["get"], d["ret"])
+        # the same query with every upstream down: still only the chosen upstream, its error returned
+        if "fcalls" in d:
+            fcalls = [] if d["fcalls"] == "-" else d["fcalls"].split(",")
+            if fcalls != [d["get"]]:
+                return "upstream %s is down and the query was (also) sent to %s: a query must reach exactly one upstream" % (d["get"], d["fcalls"])
+            if d.get("fret") != "err":
+                return "the chosen upstream failed but Resolve returned %s" % d.get("fret")
     nl = _labels(name)
     if nl is None:
         return None          # not an absolute well-formed name: only the model diff applies
